@@ -11,6 +11,7 @@ structure Input where
   owns : Bool
   persist : Option Bool        -- none: no `_persist` sidecar
   tasks : List Bool            -- per task found: does SyncExec succeed?
+  findFails : Bool := false    -- `writeBackManager.Find` returns an error
   deriving Repr, DecidableEq
 
 inductive Result where
@@ -33,7 +34,8 @@ def execAll : List Bool → Nat × Bool
 def maybeDelete (i : Input) : Output :=
   if i.expired || !i.owns then
     if i.persist == some true then
-      if (execAll i.tasks).2 then
+      if i.findFails then { result := .error, executed := 0, deleted := false }
+      else if (execAll i.tasks).2 then
         -- DeleteCacheFileMetadata(persist), then DeleteCacheFile
         { result := .deleted, executed := (execAll i.tasks).1, deleted := true }
       else { result := .error, executed := (execAll i.tasks).1, deleted := false }
